@@ -406,6 +406,9 @@ func streamUnquoted(seed uint64, idx int) caseT {
 		s := string([]byte{byte(idx % 256)})
 		if idx >= 256 {
 			s = "a" + s
+			if c := byte(idx % 256); c == ' ' || c == '\t' || c == '\n' || c == '\r' {
+				s = "a_" // white space after an identifier is legal and not part of it
+			}
 		}
 		doc := map[string]interface{}{s: "marker"}
 		want := "reject"
